@@ -30,6 +30,11 @@ CHECKS = {
    technique="bounded-exhaustive enumeration of endpoint declaration sets x declaration orders x requests through BuildEndpointPolicyTree and the dispatcher against an independent matcher",
    text="All endpoint declaration sets of size <=3 over 42 (method, pattern) pairs in every declaration order are built with the real BuildEndpointPolicyTree; 80 requests are resolved through the dispatcher's getRemedies/getDiagnoses. Every applied remedy/diagnosis must come from a declaration with the request's method whose pattern matches, from the most specific reachable one; the normalised URL must be a declared matching pattern; path parameters must be the request's parts; the outcome must not depend on declaration order.",
    note="each endpoint carries a distinct remedy type; only-if reading; non-backtracking trie accepted (shadowed more-specific patterns are excused); patterns outside the alphabet not covered"),
+
+ "C14": dict(level="exploration", engine="seqx-product", design="§3 C14",
+   technique="bounded-exhaustive enumeration of URL patterns x method lists x instantiated requests; registered expressions (from a real Stream / policy config) evaluated as regexes against the engine's own match verdict",
+   text="43 URL patterns (dotted hosts, host and path parameters, dotted parameter name, trailing wildcard, literals with each regex metacharacter) x method lists x every instantiation x 7 request methods. For flows a real Stream is loaded from YAML and the manager's buildHAProxyFlowsEndpointsRequest produces the expressions; for policies BuildHAProxyEndpointsRequest. Whenever the real FilterTree / EndpointPolicyTree matches (method, URL), some registered expression must match 'METHOD:::url' as an unanchored regex.",
+   note="haproxy map_reg assumed to agree with Go RE2 on the generated fragment; standard HTTP methods only; one filter per engine"),
 }
 NA_REASON = "check not built yet in this round (work in progress; planned per DESIGN.md §3)"
 def main():
